@@ -175,6 +175,7 @@ class Ctx:
         self.assumptions = []
         self.extra = {}
         self.cases_run = 0
+        self.metrics = {}      # name -> [min, max, n]
 
     def add_count(self, k, n=1):
         self.counts[k] = self.counts.get(k, 0) + n
@@ -220,6 +221,12 @@ class Ctx:
             self.buckets.add(mode + "|" + b)
         for k, v in r.get("counts", {}).items():
             self.add_count(k, v)
+        for k, v in r.get("metrics", {}).items():
+            m = self.metrics.get(k)
+            if m is None:
+                self.metrics[k] = [v[0], v[1], 1]
+            else:
+                m[0] = min(m[0], v[0]); m[1] = max(m[1], v[1]); m[2] += 1
         if r.get("sample") and len(self.samples) < 6 and (r.get("evals", 0) > 0):
             self.samples.append({"driver": driver, "mode": mode, "case": r["case"], "what": r["sample"],
                                  "evaluations": r.get("evals", 0)})
@@ -310,6 +317,8 @@ class Ctx:
             "wall_s": round(wall, 2),
             "violations": nviol,
         }
+        if self.metrics:
+            ev["coverage"]["metrics_min_max_n"] = {k: v for k, v in sorted(self.metrics.items())[:300]}
         ev["coverage"].update(self.extra)
         with open(os.path.join(EVID, self.prop + ".json"), "w") as f:
             json.dump(ev, f, indent=1, sort_keys=False)
